@@ -56,6 +56,12 @@ func concBatches(seed int64, tier core.Tier, prop string) []core.Batch {
 			}
 		}
 	}
+	for rep := 0; rep < tierPick(tier, 1, 6); rep++ {
+		for _, w := range []int{1, 4} {
+			bs = append(bs, core.Batch{Name: fmt.Sprintf("directed-expiry-during-shutdown-w%d-r%d", w, rep), TimeoutS: 120,
+				Params: core.Params(concCfg{Workers: w, InCh: 16, Directed: "expiry-during-shutdown", Ops: tierPick(tier, 6, 12)})})
+		}
+	}
 	return bs
 }
 
@@ -106,6 +112,10 @@ func init() {
 func concRun(c *core.Ctx, b core.Batch, prop string) {
 	var cfg concCfg
 	json.Unmarshal(b.Params, &cfg)
+	if cfg.Directed == "expiry-during-shutdown" {
+		concExpiryDuringShutdown(c, cfg, prop)
+		return
+	}
 	if cfg.Directed != "" {
 		concDirected(c, cfg, prop)
 		return
@@ -138,6 +148,72 @@ func concRun(c *core.Ctx, b core.Batch, prop string) {
 		e.replyOrder(e.rig.C.Log())
 	}
 	c.Sample(map[string]interface{}{"config": cfg, "callbacks": len(e.execs)})
+}
+
+// concExpiryDuringShutdown: a query event of group G expires while Shutdown is
+// blocked behind a running callback of G (the stop phase of a start/stop
+// history). Whatever the library does with the final nil call, it must not run
+// while the other callback of G is executing.
+func concExpiryDuringShutdown(c *core.Ctx, cfg concCfg, prop string) {
+	rigInstall()
+	for round := 0; round < cfg.Ops; round++ {
+		occ := mon.NewOccupancy(func(group, first, second string) {
+			if prop == "C01" {
+				c.Violation("C01/overlap:directed-"+cfg.Directed, fmt.Sprintf("callbacks %s and %s of group %q overlapped in directed scenario %s", first, second, group, cfg.Directed), cfg)
+			}
+		})
+		rg := newRig("svc", func(s *res.Service) {
+			s.SetWorkerCount(cfg.Workers)
+			s.SetQueryEventDuration(8 * time.Millisecond)
+			s.Handle("res.$id", res.GetModel(func(r res.ModelRequest) { r.Model(nil) }))
+		})
+		if err := rg.start(); err != nil {
+			c.Inconclusive("start: " + err.Error())
+			return
+		}
+		G := "svc.res.1"
+		inside, release, finished := make(chan struct{}), make(chan struct{}), make(chan struct{})
+		var nils int32
+		err := rg.S.With(G, func(r res.Resource) {
+			occ.Enter(G, "with:busy", false)
+			r.QueryEvent(func(qr res.QueryRequest) {
+				id := "query/request"
+				if qr == nil {
+					id = "query/nil"
+					atomic.AddInt32(&nils, 1)
+				}
+				occ.Enter(G, id, false)
+				time.Sleep(200 * time.Microsecond)
+				occ.Exit(G)
+			})
+			close(inside)
+			<-release
+			time.Sleep(time.Millisecond)
+			occ.Exit(G)
+			close(finished)
+		})
+		if err != nil || !waitCh(inside, 10*time.Second) {
+			c.Inconclusive("expiry-during-shutdown: With callback did not start")
+			close(release)
+			rg.stop()
+			return
+		}
+		stopped := make(chan struct{})
+		go func() { rg.stop(); close(stopped) }()
+		// the query event expires (8 ms) while Shutdown waits for the busy callback
+		time.Sleep(40 * time.Millisecond)
+		close(release)
+		if !waitCh(finished, 10*time.Second) || !waitCh(stopped, 25*time.Second) {
+			c.Inconclusive("expiry-during-shutdown: Shutdown did not complete")
+			return
+		}
+		time.Sleep(5 * time.Millisecond)
+		c.Eval(1)
+		c.Obs("expiry_during_shutdown_rounds", 1)
+		c.Obs("expiry_during_shutdown_nil_calls", int64(atomic.LoadInt32(&nils)))
+		c.Distinct(fmt.Sprintf("%s/w%d/%d", cfg.Directed, cfg.Workers, round))
+	}
+	c.Sample(map[string]interface{}{"directed": cfg.Directed, "workers": cfg.Workers, "rounds": cfg.Ops})
 }
 
 // concDirected runs scripted gate scenarios around the windows in which a
